@@ -229,6 +229,15 @@ def check_ast_traversal(model: Model, col, rule: str):
             arg = unparse(c.args[0]) if c.args else "?"
             stored = any(isinstance(s, ast.Assign) and s.value is c and unparse(s.targets[0]) == arg for s in ast.walk(m))
             if not stored:
+                # through a local that is bound once, to this call, and then stored into the field as it is
+                # (`functions = function(self.__functions); <checks>; self.__functions = functions`)
+                for s in ast.walk(m):
+                    if isinstance(s, ast.Assign) and s.value is c and len(s.targets) == 1 and isinstance(s.targets[0], ast.Name):
+                        loc = s.targets[0].id
+                        binds = [x for x in ast.walk(m) if isinstance(x, ast.Name) and x.id == loc and isinstance(x.ctx, ast.Store)]
+                        back = [x for x in m.body if isinstance(x, ast.Assign) and isinstance(x.value, ast.Name) and x.value.id == loc and unparse(x.targets[0]) == arg]
+                        stored = len(binds) == 1 and len(back) == 1 and s in m.body and m.body.index(back[0]) > m.body.index(s)
+            if not stored:
                 lost.append(arg)
         col.check(not lost, rule, f"{ci.file}::{ci.name}._Traverse stores rewritten children", "self.<field> = function(self.<field>) for every traversed field",
                   f"the result of function({lost[0] if lost else ''}) is dropped: a pass that replaces a child of a {ci.name} (compound-assignment rewrite, implicit casts) has no effect there", ci.file, m)
